@@ -6,7 +6,7 @@
    (every cut the parsers make is at / \ . : ? or at an end). *)
 From Coq Require Import List NArith Bool.
 Import ListNotations.
-From TP Require Import Core Path Unix Win Utf8 Utf8Proofs C14Proofs.
+From TP Require Import Core Path Unix Win Utf8 Utf8Proofs C14Proofs C13Proofs.
 
 Theorem C14_valid_iff : forall l : list N, utf8_valid l = true <-> Valid l.
 Proof. exact utf8_valid_iff. Qed.
@@ -29,7 +29,24 @@ Print Assumptions C14_concat.
 Print Assumptions C14_cut_before_ascii.
 Print Assumptions C14_cut_after_ascii.
 Print Assumptions C14_unix_push_valid.
-(* C14_slices_partial: that each individual slice the model returns (components, remainders, parent, stem,
-   extension, strip_prefix remainder) starts and ends at such a cut is not proved operation by operation;
+(* the slices handed out for the last component of a valid UTF-8 Unix path are valid UTF-8: file name,
+   stem, extension (every cut is next to a separator or the dot) *)
+Theorem C14_unix_file_name_valid : forall l n : list N, Valid l -> u_file_name l = Some n -> Valid n.
+Proof. exact u_file_name_valid. Qed.
+Theorem C14_unix_file_stem_valid : forall l st : list N, Valid l -> u_file_stem l = Some st -> Valid st.
+Proof. exact u_file_stem_valid. Qed.
+Theorem C14_unix_extension_valid : forall l e : list N, Valid l -> u_extension l = Some e -> Valid e.
+Proof. exact u_extension_valid. Qed.
+(* set_extension on a valid buffer with a valid extension: the truncation point is a character boundary
+   (no panic in String::truncate) and the result is valid *)
+Theorem C14_unix_set_extension_valid : forall l n ext : list N, Valid l -> Valid ext -> u_file_name l = Some n ->
+  exists before j, l = before ++ n ++ j /\ Valid (before ++ stem_of n) /\ Valid (fst (u_set_extension l ext)).
+Proof. exact u_set_extension_cut_valid. Qed.
+Print Assumptions C14_unix_file_name_valid.
+Print Assumptions C14_unix_file_stem_valid.
+Print Assumptions C14_unix_extension_valid.
+Print Assumptions C14_unix_set_extension_valid.
+(* C14_slices_partial: that the remaining slices the model returns (every component, remainders, parent,
+   strip_prefix remainder; all Windows slices) start and end at such a cut is not proved operation by operation;
    the harness checks std::str::from_utf8 on every returned &str, and the set_extension truncation point
    (formerly a panic, D5) is covered by the C13 cases with multi-byte characters next to dots. *)
